@@ -4,6 +4,7 @@ import (
 	"fmt"
 	"go/types"
 	"os"
+	"sort"
 	"strconv"
 	"strings"
 	"sync"
@@ -23,6 +24,7 @@ type Engine struct {
 	mu     sync.Mutex
 	fnInfo map[*ssa.Function]*fnInfo
 	violSeen sync.Map // label -> *int32: violations already recorded (saturation)
+	domCache sync.Map // hash of (variables, applied conjuncts) -> *domEntry
 	qcache sync.Map // canonical query text -> smt.Result (shared by all workers)
 
 	// type handles
@@ -470,6 +472,7 @@ func (p *Path) termVars(t *smt.Term) []int {
 	for id := range set {
 		out = append(out, id)
 	}
+	sort.Ints(out) // deterministic: decisions are replayed by index
 	p.varsOf[t.ID] = out
 	return out
 }
@@ -798,6 +801,7 @@ func (p *Path) varByID(id int) *smt.Term {
 type domain struct {
 	vs      []*smt.Term
 	widths  []uint
+	hash    uint64
 	assigns []uint32 // packed assignments still consistent with the path condition
 	upTo    int      // asserted conjuncts already applied
 	bad     bool     // some conjunct could not be evaluated
@@ -838,6 +842,7 @@ func (p *Path) domainFor(vs []*smt.Term) *domain {
 		for i := range d.assigns {
 			d.assigns[i] = uint32(i)
 		}
+		d.hash = fnv64(uint64(total), key)
 		p.domains[key] = d
 	}
 	if d.bad {
@@ -865,21 +870,87 @@ func (p *Path) domainFor(vs []*smt.Term) *domain {
 		if !sub {
 			continue
 		}
-		keep := d.assigns[:0]
+		// filtered sets are shared between paths (siblings apply the same
+		// conjuncts in the same order)
+		h := fnv64(d.hash, termKey(a))
+		if v, ok := p.E.domCache.Load(h); ok {
+			ent := v.(*domEntry)
+			if ent.bad {
+				d.bad = true
+				return d
+			}
+			d.assigns, d.hash = ent.assigns, h
+			continue
+		}
+		keep := make([]uint32, 0, len(d.assigns))
+		bad := false
 		for _, as := range d.assigns {
 			d.model(as, m)
 			r, ok := smt.Eval(a, m, smt.NewMemo())
 			if !ok {
-				d.bad = true
-				return d
+				bad = true
+				break
 			}
 			if r == 1 {
 				keep = append(keep, as)
 			}
 		}
-		d.assigns = keep
+		p.E.domCache.Store(h, &domEntry{assigns: keep, bad: bad})
+		if bad {
+			d.bad = true
+			return d
+		}
+		d.assigns, d.hash = keep, h
 	}
 	return d
+}
+
+type domEntry struct {
+	assigns []uint32
+	bad     bool
+}
+
+func fnv64(seed uint64, s string) uint64 {
+	h := seed ^ 14695981039346656037
+	for i := 0; i < len(s); i++ {
+		h ^= uint64(s[i])
+		h *= 1099511628211
+	}
+	return h
+}
+
+// termKey serialises a term (as a DAG) with its real variable names.
+func termKey(t *smt.Term) string {
+	var sb strings.Builder
+	ids := map[int]int{}
+	var walk func(t *smt.Term) int
+	walk = func(t *smt.Term) int {
+		if n, ok := ids[t.ID]; ok {
+			return n
+		}
+		args := make([]int, len(t.Args))
+		for i, a := range t.Args {
+			args[i] = walk(a)
+		}
+		n := len(ids)
+		ids[t.ID] = n
+		sb.WriteByte('(')
+		sb.WriteString(strconv.Itoa(int(t.Op)))
+		sb.WriteByte(' ')
+		sb.WriteString(strconv.Itoa(t.Sort.W))
+		sb.WriteByte(' ')
+		sb.WriteString(strconv.FormatUint(t.U, 16))
+		sb.WriteByte(' ')
+		sb.WriteString(t.Name)
+		for _, a := range args {
+			sb.WriteByte(' ')
+			sb.WriteString(strconv.Itoa(a))
+		}
+		sb.WriteByte(')')
+		return n
+	}
+	walk(t)
+	return sb.String()
 }
 
 // enumerate decides sat(slice ∧ cond) by evaluating cond on the surviving
@@ -889,18 +960,27 @@ func (p *Path) enumerate(vs []*smt.Term, cond *smt.Term, sl []*smt.Term) (sat bo
 	if d.bad {
 		return false, false
 	}
+	ck := fnv64(d.hash^0x9e3779b97f4a7c15, termKey(cond))
+	if v, hit := p.E.domCache.Load(ck); hit {
+		r := v.(int)
+		return r == 1, r != 2
+	}
+	res := 0
 	m := map[string]smt.ModelVal{}
 	for _, as := range d.assigns {
 		d.model(as, m)
 		r, evok := smt.Eval(cond, m, smt.NewMemo())
 		if !evok {
-			return false, false
+			res = 2
+			break
 		}
 		if r == 1 {
-			return true, true
+			res = 1
+			break
 		}
 	}
-	return false, true
+	p.E.domCache.Store(ck, res)
+	return res == 1, res != 2
 }
 
 // enumValues lists the feasible values of t when it depends on narrow
@@ -915,6 +995,10 @@ func (p *Path) enumValues(t *smt.Term) []uint64 {
 	if d.bad {
 		return nil
 	}
+	ck := fnv64(d.hash^0x51ed270b27b4f3cf, termKey(t))
+	if v, hit := p.E.domCache.Load(ck); hit {
+		return v.([]uint64)
+	}
 	seen := map[uint64]bool{}
 	var out []uint64
 	m := map[string]smt.ModelVal{}
@@ -922,16 +1006,20 @@ func (p *Path) enumValues(t *smt.Term) []uint64 {
 		d.model(as, m)
 		r, evok := smt.Eval(t, m, smt.NewMemo())
 		if !evok {
-			return nil
+			out = nil
+			break
 		}
 		if !seen[r] {
 			seen[r] = true
 			out = append(out, r)
 			if len(out) > 256 {
-				return nil
+				out = nil
+				break
 			}
 		}
 	}
+	sort.Slice(out, func(i, j int) bool { return out[i] < out[j] })
+	p.E.domCache.Store(ck, out)
 	return out
 }
 
